@@ -152,7 +152,7 @@ func c09LongProbe(c *mc.Ctx, label string) *hermes.VerifProbe {
 		for _, r := range []struct {
 			n string
 			v float64
-		}{{"N stress factor", g.REDUK}, {"transpiration ratio", g.TRREL}} {
+		}{{"N stress factor", g.REDUK}, {"transpiration ratio", g.TRREL}, {"air-shortage factor", g.LURED}} {
 			c.Eval(1)
 			if !finite(r.v) || r.v < -1e-12 || r.v > 1+1e-12 {
 				c.Violate("stress-factor-outside-0-1 "+r.n, fmt.Sprintf("%s: %s = %v", day, r.n, r.v), nil)
@@ -304,7 +304,7 @@ func c09Run(raw json.RawMessage, c *mc.Ctx) {
 			for _, r := range []struct {
 				n string
 				v float64
-			}{{"N stress factor", g.REDUK}, {"transpiration ratio", g.TRREL}} {
+			}{{"N stress factor", g.REDUK}, {"transpiration ratio", g.TRREL}, {"air-shortage factor", g.LURED}} {
 				c.Eval(1)
 				if !finite(r.v) || r.v < -1e-12 || r.v > 1+1e-12 {
 					c.Violate("stress-factor-outside-0-1 "+r.n, fmt.Sprintf("%s: %s = %v", day, r.n, r.v), nil)
